@@ -98,6 +98,10 @@ def make_body(ctx, spec):
   def body(test, **plugs):
     return run_body(ctx, name, test, plugs)
 
+  if spec.get('bare'):
+    def body(**plugs):  # pylint: disable=function-redefined
+      return run_body(ctx, name, None, plugs)
+
   body.__name__ = name
   body.__qualname__ = name
   return body
@@ -150,9 +154,10 @@ def run_body(ctx, name, test, plugs):
     if plugs or spec['plugs']:
       ctx.ev('plug_args', name, tuple((a, getattr(type(plugs[a]), 'LABEL', type(plugs[a]).__name__), getattr(plugs[a], 'serial', -1))
                                       for a in sorted(plugs)))
-    if inv == 1 and spec.get('first'):
+    if inv == 1 and spec.get('first') and test is not None:
       ctx.ev('fresh_state', name, len(test.state), sorted(str(k) for k in test.state))
-    test.state['seen_' + name] = inv
+    if test is not None:
+      test.state['seen_' + name] = inv
     if ctx.on_update is not None:
       ctx.on_update('phase', name, None, None)
     for mname, val in beh.get('meas', []):
